@@ -1,5 +1,6 @@
 import Driver.Util
 import GoMC.Model.Chat
+import GoMC.Model.ChatNBT
 import GoMC.Spec.TextComponent
 import GoMC.Spec.NBT
 /-!
@@ -11,7 +12,7 @@ import GoMC.Spec.NBT
   is what the property demands (`norm m`).
 -/
 namespace Driver.C17
-open GoMC GoMC.Spec GoMC.Model GoMC.Model.Chat Driver
+open GoMC GoMC.Spec GoMC.Model GoMC.Model.Chat GoMC.Model.ChatNBT GoMC.Model.Go Driver
 
 /-! ### tokens -/
 
@@ -326,6 +327,38 @@ def opJSONMsgDec (arg obs : String) : Verdict :=
       | _ => if cls == "err" then obs else "err"
     { model, spec := badPanic cls }
 
+mutual
+  /-- compounds as maps: entries sorted by key (Go writes a map in arbitrary order) -/
+  partial def canonN : NBT → NBT
+    | .list e xs => .list e (xs.map canonN)
+    | .compound kvs =>
+      .compound ((kvs.map fun (k, v) => (k, canonN v)).toArray.qsort (fun a b => Chat.bytesLt a.1 b.1)).toList
+    | t => t
+end
+
+/-- two network-format documents that are the same tree -/
+def sameDoc (a b : Bytes) : Bool :=
+  a == b ||
+  match parseDoc .network a, parseDoc .network b with
+  | some (_, ta, []), some (_, tb, []) => ta.tag == tb.tag && encPayload (canonN ta) == encPayload (canonN tb)
+  | _, _ => false
+
+/-- hover contents inside the domain of the Go-value model (`anyVal`) -/
+partial def contentsModelled : Msg → Bool
+  | ⟨_, _, _, _, _, _, _, _, _, _, hover, _, args, extra⟩ =>
+    (match hover with | some (_, c, v) => numbersModelled c && contentsModelled v | none => true)
+    && args.all (fun | .inl m => contentsModelled m | .inr _ => true) && extra.all contentsModelled
+
+/-- `(*Message).ReadFrom` on `input`: the printed observation, `none` when the decoded hover contents cannot be printed -/
+def showRead (input : Bytes) : String × Option String :=
+  match readFrom (Stream.ofBytes input) with
+  | (.ok (v, n), _) =>
+    match ofGo v with
+    | some m => ("ok", some s!"{showMsg m} n={n}")
+    | none => ("ok", none)
+  | (.err, _) => ("err", some "")
+  | (.panic, _) => ("panic", some "")
+
 def opNBT (ms obs : String) : Verdict :=
   match parseMsgTok ms with
   | none => { model := "bad-arg" }
@@ -334,7 +367,18 @@ def opNBT (ms obs : String) : Verdict :=
     let cls := clsOf obs
     let want := norm id m
     let bytes := ((kv toks "bytes").bind parseHex).getD []
-    let model := s!"ok bytes={hexOfBytes bytes} back={showMsg want} n={bytes.length}"
+    -- the model: Message.WriteTo, then (*Message).ReadFrom on what it wrote
+    let model :=
+      match writeTo m with
+      | .ok (mb, _) =>
+        if !contentsModelled m then (if cls == "ok" then obs else "ok") else
+        let shown := if sameDoc mb bytes then bytes else mb
+        let back := match readFrom (Stream.ofBytes mb) with
+          | (.ok (v, _), _) => (match ofGo v with | some b => showMsg b | none => "?")
+          | _ => "err"
+        s!"ok bytes={hexOfBytes shown} back={back} n={mb.length}"
+      | .err => "err"
+      | .panic => "panic"
     let spec : Option String :=
       match badPanic cls with
       | some w => some w
@@ -357,11 +401,7 @@ def opNBT (ms obs : String) : Verdict :=
           | _ => some "the NBT form is not a compound"
         | some (_, _, _ :: _) => some "bytes follow the NBT value"
         | none => some "the NBT form is not one well-formed network-format value"
-    match spec with
-    | none => { model }
-    | some w =>
-      if hasMixedArgs m then { model := obs, spec := some w, markers := ["C17.with-mixed-kinds"] }
-      else { model, spec := some w }
+    { model, spec }
 
 /-- stage-1 stand-in for `Message.ReadFrom`: the independent NBT reader followed by the independent reading
 of a component; fails (no demand) outside what the two specs cover -/
@@ -398,38 +438,66 @@ def opNBTDec (arg obs : String) : Verdict :=
               else none
             | none => some "unparseable observation"
         | _ => none
-    { model := obs, spec }
+    -- the model: (*Message).ReadFrom (the byte count of a failed read is not part of the model)
+    let model :=
+      match showRead input with
+      | ("ok", some r) => "ok " ++ r
+      | ("ok", none) => if cls == "ok" then obs else "ok"
+      | ("err", _) => if cls == "err" then obs else "err"
+      | (c, _) => c
+    { model, spec }
 
 def showType (t : ChatType) : String :=
   s!"{t.id.toInt},{showMsg t.sender},{match t.target with | some m => showMsg m | none => "-"}"
 
-def opType (ids ss ts obs : String) : Verdict :=
+/-- the exact codec of the two names: Go values, `Message.WriteTo` on the component they stand for -/
+def goCodec : Codec GoVal :=
+  ⟨fun v => match (ofGo v).map writeTo with
+     | some (.ok r) => r
+     | _ => ([], 0),
+   fun old => readFromInto old, messageTy.zero⟩
+
+def opType (reuse : Bool) (ids ss ts obs : String) : Verdict :=
   match ids.toInt?, parseMsgTok ss, (if ts == "-" then some none else (parseMsgTok ts).map some) with
   | some idv, some sender, some target =>
     let toks := obs.splitOn " "
     let cls := clsOf obs
-    let sb := ((kv toks "sb").bind parseHex).getD []
-    let tb := ((kv toks "tb").bind parseHex).getD []
-    -- Message.WriteTo as recorded by the harness (stage 1: a parameter of the header model)
-    let msgC : Codec Msg := ⟨fun m => if Msg.beq m sender then (sb, sb.length) else (tb, tb.length), fun _ => specMsgDec, Msg.zero⟩
-    let t : ChatType := ⟨BitVec.ofInt 32 idv, sender, target⟩
-    let (bytes, n) := typeEnc msgC t
+    let obsBytes := ((kv toks "bytes").bind parseHex).getD []
     let want : ChatType := ⟨BitVec.ofInt 32 idv, norm id sender, target.map (norm id)⟩
-    let model := s!"ok bytes={hexOfBytes bytes} sb={hexOfBytes sb} tb={hexOfBytes tb} back={showType want} n={n},{n}"
+    let okW (m : Msg) : Bool := match writeTo m with | .ok _ => true | _ => false
+    let model :=
+      if !(okW sender && (match target with | some m => okW m | none => true)) then "err" else
+      if !(contentsModelled sender && (match target with | some m => contentsModelled m | none => true)) then
+        (if cls == "ok" then obs else "ok") else
+      let t : ChatTypeOf GoVal := ⟨BitVec.ofInt 32 idv, goOf sender, target.map goOf⟩
+      let (bytes, n) := typeEnc goCodec t
+      let sb := (goCodec.enc (goOf sender)).1
+      let tb := match target with | some m => (goCodec.enc (goOf m)).1 | none => []
+      -- the destination: fresh, or one that went through a header with a target (its sender reset by the harness)
+      let old : ChatTypeOf GoVal :=
+        if reuse then ⟨7, messageTy.zero, some (goOf (Msg.ofText [0x6f#8, 0x6c#8, 0x64#8, 0x20#8, 0x74#8, 0x61#8, 0x72#8, 0x67#8, 0x65#8, 0x74#8]))⟩
+        else ⟨0, messageTy.zero, none⟩
+      let back := match typeDec goCodec old (Stream.ofBytes bytes) with
+        | (.ok (r, k), _) =>
+          (match ofGo r.sender, (match r.target with | some x => (ofGo x).map some | none => some none) with
+           | some s', some t' => s!"{showType ⟨r.id, s', t'⟩} n={n},{k}"
+           | _, _ => "? n=?")
+        | _ => s!"err n={n},0"
+      s!"ok bytes={hexOfBytes bytes} sb={hexOfBytes sb} tb={hexOfBytes tb} back={back}"
     let spec : Option String :=
       match badPanic cls with
       | some w => some w
       | none =>
         if cls != "ok" then some "a chat-type header could not be written" else
         if kv toks "back" != some (showType want) then some "the chat-type header did not round-trip"
-        else if kv toks "bytes" != some (hexOfBytes bytes) then some "the header is not id, sender, has-target, target"
-        else none
-    match spec with
-    | none => { model }
-    | some w =>
-      if hasMixedArgs sender || (match target with | some m => hasMixedArgs m | none => false)
-      then { model := obs, spec := some w, markers := ["C17.with-mixed-kinds"] }
-      else { model, spec := some w }
+        else if kv toks "n" != some s!"{obsBytes.length},{obsBytes.length}" then some "WriteTo / ReadFrom report a wrong byte count"
+        else
+          -- layout: VarInt id, sender, Boolean, target — judged on the bytes with the C05/C06 models and the spec reader
+          let sb := ((kv toks "sb").bind parseHex).getD []
+          let tb := ((kv toks "tb").bind parseHex).getD []
+          let lay := (varIntEnc (BitVec.ofInt 32 idv)).1 ++ sb ++ (boolEnc target.isSome).1 ++ tb
+          if lay != obsBytes then some "the header is not id, sender, has-target, target" else none
+    { model, spec }
   | _, _, _ => { model := "bad-arg" }
 
 def opTypeDec (arg obs : String) : Verdict :=
@@ -457,7 +525,15 @@ def opTypeDec (arg obs : String) : Verdict :=
             | _, _ => some "unparseable observation"
           | _ => some "unparseable observation"
         | _ => none
-    { model := obs, spec }
+    let model :=
+      match typeDec goCodec ⟨0, messageTy.zero, none⟩ (Stream.ofBytes input) with
+      | (.ok (r, k), _) =>
+        (match ofGo r.sender, (match r.target with | some x => (ofGo x).map some | none => some none) with
+         | some s', some t' => s!"ok {showType ⟨r.id, s', t'⟩} n={k}"
+         | _, _ => if cls == "ok" then obs else "ok")
+      | (.err, _) => if cls == "err" then obs else "err"
+      | (.panic, _) => "panic"
+    { model, spec }
 
 def opRender (langs ms obs : String) : Verdict :=
   match parseMsgTok ms with
@@ -503,8 +579,8 @@ def handle (op : String) (args : List String) (obs : String) : Option Verdict :=
   | "chat.nbt", [m] => some (opNBT m obs)
   | "chat.nbt.dec", [a] => some (opNBTDec a obs)
   | "chat.render", [l, m] => some (opRender l m obs)
-  | "chat.type", [i, s, t] => some (opType i s t obs)
-  | "chat.type.reuse", [i, s, t] => some (opType i s t obs)
+  | "chat.type", [i, s, t] => some (opType false i s t obs)
+  | "chat.type.reuse", [i, s, t] => some (opType true i s t obs)
   | "chat.type.dec", [a] => some (opTypeDec a obs)
   | "chat.decorate", [k, p, st, s, t, c] => some (opDecorate k p st s t c obs)
   | _, _ => none
